@@ -707,6 +707,17 @@ impl Scenario for InterpDriver {
                     head.insert(pos, json!({"if": 99, "t": inner, "f": Value::Null}));
                     head.insert(pos, json!(81));
                 }
+                3 => {
+                    // round 12: a separator that executes in the unlocking script, in front of the signature pushes
+                    head.insert(0, json!(171));
+                    split_at = split_at.map(|s| s + 1);
+                }
+                4 => {
+                    // ... or inside a taken branch of the unlocking script
+                    head.insert(0, json!({"if": 99, "t": [json!(171)], "f": Value::Null}));
+                    head.insert(0, json!(81));
+                    split_at = split_at.map(|s| s + 2);
+                }
                 _ => {}
             }
             head.extend(prog);
